@@ -6,8 +6,10 @@
 (b) the real Calculator on re-presented copies of synthetic data sets (and, thorough, of the shipped examples).
 The differential run is the oracle of the search stage.
 """
+import contextlib
 import copy
 import logging
+import math
 import shutil
 import time
 import warnings
@@ -169,29 +171,35 @@ def observe_calc(settings_path):
 
 
 def compare(base, other):
-    """(max relative difference, quantity, detail) ; relative to the largest magnitude of the quantity"""
+    """(max relative difference, quantity, detail); relative to the largest magnitude of the quantity"""
     worst = (0.0, None, None)
+    broken = None
     if sorted(base) != sorted(other):
         return (float("inf"), "key set", "quantities %s vs %s" % (sorted(base), sorted(other)))
     for k in sorted(base):
         a, b = base[k], other[k]
         if a is None or b is None:
             if (a is None) != (b is None):
-                return (float("inf"), k, "defined in one presentation only")
+                broken = broken or (k, "defined in one presentation only")
             continue
         if a.shape != b.shape:
-            return (float("inf"), k, "shape %s vs %s" % (a.shape, b.shape))
+            broken = broken or (k, "shape %s vs %s" % (a.shape, b.shape))
+            continue
         na, nb = numpy.isnan(a), numpy.isnan(b)
         if (na != nb).any():
-            return (float("inf"), k, "NaN pattern differs")
-        if na.all():
+            broken = broken or (k, "NaN pattern differs")
+        both = ~(na | nb)
+        if not both.any():
             continue
-        scale = float(numpy.nanmax(numpy.abs(a)))
-        dif = numpy.where(na, 0.0, numpy.abs(numpy.where(na, 0.0, a) - numpy.where(nb, 0.0, b)))
+        scale = float(numpy.max(numpy.abs(a[both])))
+        dif = numpy.where(both, numpy.abs(numpy.where(both, a, 0.0) - numpy.where(both, b, 0.0)), 0.0)
         i = numpy.unravel_index(int(numpy.argmax(dif)), dif.shape)
         rel = float(dif[i]) / scale if scale > 0 else (0.0 if dif[i] == 0 else float("inf"))
         if rel > worst[0]:
-            worst = (rel, k, "index %s: %.12g vs %.12g (scale %.6g)" % (tuple(int(x) for x in i), a[i], b[i], scale))
+            worst = (rel, k, "%s index %s: %.12g vs %.12g (scale %.6g)" % (k, tuple(int(x) for x in i), a[i], b[i], scale))
+    if broken:
+        return (float("inf"), broken[0], "%s: %s; largest finite difference %.3g relative: %s"
+                % (broken[0], broken[1], worst[0], worst[2]))
     return worst
 
 
@@ -242,12 +250,45 @@ def spec_diff(spec, base):
     return {k: v for k, v in spec.items() if v != base[k]}
 
 
-def calc_stage(ctx, rd, name, ds, settings, specs, inline=True):
+@contextlib.contextmanager
+def exact_task_identity():
+    """diagnosis only: identify phonon-contribution tasks by exact equality of their strain fractions instead of
+    numpy.allclose (tasks.py PhononContributionTaskParams.__eq__)"""
+    import cij.core.tasks as TK
+    from cij.util import ElasticModulusCalculationType as ET
+    P = TK.PhononContributionTaskParams
+    old = P.__eq__
+
+    def eq(self, other):
+        if self.calc_type != other.calc_type:
+            return False
+        if self.calc_type == ET.SHEAR:
+            return self.params[1] == other.params[1] and numpy.array_equal(self.params[0], other.params[0])
+        return all(numpy.array_equal(a, b) for a, b in zip(self.params, other.params))
+    P.__eq__ = eq
+    try:
+        yield
+    finally:
+        P.__eq__ = old
+
+
+def degenerate_lattice_dataset(rng, eps=8e-6):
+    """axial strain fractions e2 and e3 differ by eps relative (< the allclose tolerance of the task identity)"""
+    ds = synth.make_dataset(rng, nv=6, nq=3, na=2)
+    v0 = ds["elast"]["volumes"][1]
+    ds["elast"]["lattice"] = [(4.8 * math.exp(0.36 * math.log(v / v0)), 5.1 * math.exp(0.32 * math.log(v / v0)),
+                               7.3 * math.exp(0.32 * (1 + eps) * math.log(v / v0))) for v in ds["elast"]["volumes"]]
+    return ds
+
+
+def calc_stage(ctx, rd, name, ds, settings, specs, inline=True, guard_cases=None):
     """baseline = identity presentation written by the same writers; every spec is one more Calculator run"""
     base_spec = identity_spec(ds)
     d0 = rd / ("calc_%s" % name) / "base"
     t0 = time.time()
     base = observe_calc(write_presentation(d0, apply_spec(ds, base_spec), settings))
+    guard_cases = guard_cases if guard_cases is not None else []
+    guard_cases.append(([v["volume"] for v in ds["qha"]["volumes"]], True, True))
     ctx.extra.setdefault("calculator_seconds", {})[name] = [round(time.time() - t0, 2)]
     worst_by_kind = ctx.extra.setdefault("worst_rel_diff_by_kind", {})
     for si, (kind, spec) in enumerate(specs):
@@ -269,6 +310,8 @@ def calc_stage(ctx, rd, name, ds, settings, specs, inline=True):
         ctx.extra["calculator_seconds"][name].append(round(time.time() - t0, 2))
         ctx.case(dict(ds=name, kind=kind, spec=spec_diff(spec, base_spec)), nontrivial=bool(spec_diff(spec, base_spec)))
         if kind == "volume-order":
+            pv = [ds["qha"]["volumes"][vi]["volume"] for vi in spec["vperm"]]
+            guard_cases.append((pv, raised is None, raised is None and compare(base, got)[0] <= RTOL_CALC))
             if raised:
                 ctx.count("volume-order: rejected with an error")
                 ctx.sample(dict(data_set=name, kind=kind, presentation=spec_diff(spec, base_spec), outcome=raised))
@@ -294,9 +337,205 @@ def calc_stage(ctx, rd, name, ds, settings, specs, inline=True):
         ctx.sample(dict(data_set=name, kind=kind, presentation=spec_diff(spec, base_spec), max_rel_diff=rel,
                         worst_quantity=q))
         if not rel <= RTOL_CALC:
-            ctx.failure(kind, "re-presenting the same data (%s) changes the results: %s differs by %.3g relative (%s)"
-                        % (kind, q, rel, detail), input=recipe, expected="max relative difference <= 1e-8",
+            key, why = kind, ""
+            if kind == "static-column-order":
+                try:
+                    with exact_task_identity():
+                        rel2 = compare(observe_calc(d0 / "settings.yaml"), observe_calc(sp))[0]
+                except Exception:      # noqa: BLE001
+                    rel2 = float("inf")
+                if rel2 <= RTOL_CALC:
+                    key = "column-order-task-merge-tolerance"
+                    why = (" [diagnosis: with tasks identified by exact equality of the strain fractions instead of "
+                           "numpy.allclose (tasks.py PhononContributionTaskParams.__eq__) the difference is %.3g: "
+                           "which of two nearly-equal tasks is computed depends on the column order]" % rel2)
+            ctx.failure(key, "re-presenting the same data (%s) changes the results: %s differs by %.3g relative (%s)%s"
+                        % (kind, q, rel, detail, why), input=recipe, expected="max relative difference <= 1e-8",
                         observed=detail)
+
+
+# ---------------------------------------------------------------------------------------------
+# (a) duck-typed runs of the contribution classes
+# ---------------------------------------------------------------------------------------------
+
+DUCK_EXTRA = r"""
+Definition cl12 (s : float) := close 0x1.19799812dea11p-40 (0x1.19799812dea11p-40 * s + 0x1p-150). (* 1e-12 rel *)
+Definition obs_same (a b : case) : bool :=
+  let s := maxabs (o_iso a) in
+  all_close (cl12 s) (o_zp a) (o_zp b) && all_close2 (cl12 s) (o_th a) (o_th b) &&
+  all_close2 (cl12 s) (o_iso a) (o_iso b) && all_close2 (cl12 (maxabs (o_gap a))) (o_gap a) (o_gap b) &&
+  all_close2 (cl12 (maxabs (o_adi a))) (o_adi a) (o_adi b).
+Definition model_same (Q1 Q2 : float -> float) (a b : case) : bool :=
+  let s := maxabs (o_iso a) in
+  all_close (cl12 s) (tab_zero_point (K a) (lg a) (G a)) (tab_zero_point (K b) (lg b) (G b)) &&
+  all_close2 (cl12 s) (tab_thermal (K a) Q1 Q2 (lg a) (G a)) (tab_thermal (K b) Q1 Q2 (lg b) (G b)) &&
+  all_close2 (cl12 s) (tab_isothermal (K a) Q1 Q2 (lg a) (G a)) (tab_isothermal (K b) Q1 Q2 (lg b) (G b)) &&
+  all_close2 (cl12 (maxabs (o_gap a))) (tab_gap (K a) Q2 (G a)) (tab_gap (K b) Q2 (G b)).
+"""
+
+
+def duck_represent(c, qperm, mperm, wscale):
+    c2 = dict(c)
+    for k in ("freq", "gam", "vdr"):
+        a = numpy.array(c[k])
+        c2[k] = numpy.stack([a[:, qi, :][:, mperm[qi]] for qi in qperm], axis=1)
+    c2["weights"] = [c["weights"][qi] * wscale for qi in qperm]
+    return c2
+
+
+def duck_specs(rng, c):
+    nq, np_ = c["nq"], c["np"]
+    ident = dict(qperm=list(range(nq)), mperm=[list(range(np_)) for _ in range(nq)], wscale=1.0)
+    out = [("mode-order", dict(ident, mperm=[rand_perm(rng, np_, 3 if qi == 0 else 0) for qi in range(nq)])),
+           ("weight-scale", dict(ident, wscale=rng.choice([2.0, 0.5, 3.0, 1.0 / 7, rng.uniform(0.05, 40.0)])))]
+    if nq >= 3:
+        out.append(("qpoint-order", dict(ident, qperm=rand_perm(rng, nq, 1))))
+        out.append(("combined", dict(qperm=rand_perm(rng, nq, 1), wscale=rng.uniform(0.05, 40.0),
+                                     mperm=[rand_perm(rng, np_, 3 if qi == 0 else 0) for qi in range(nq)])))
+    return out
+
+
+def duck_stage(ctx, rd, n):
+    rng = ctx.rng
+    H.reload_impl()
+    consts = H.impl_constants()
+    pairs, meta = [], []
+    worst = ctx.extra.setdefault("duck_worst_rel_diff_by_kind", {})
+    for i in range(n):
+        c = H.make_case(rng, nq=rng.choice([1, 2, 3, 4, 5]), generic=(i % 4 != 0))
+        for kind, spec in duck_specs(rng, c):
+            c2 = duck_represent(c, **spec)
+            lg = rng.random() < 0.5
+            try:
+                o1, o2 = H.observe(c, lg), H.observe(c2, lg)
+            except Exception as ex:     # noqa: BLE001
+                ctx.failure(kind + "-raises", "contribution class raised %s: %s" % (type(ex).__name__, ex),
+                            input=dict(kind=kind, presentation=spec, nq=c["nq"], np=c["np"]))
+                continue
+            ctx.case(dict(duck=True, kind=kind, spec=spec, lg=lg, freq=c["freq"], w=c["weights"], t=c["temps"]),
+                     nontrivial=True)
+            ctx.count("duck: " + kind)
+            ctx.count("duck: nq=%d" % c["nq"])
+            pairs.append("(%s,\n %s)" % (H.coq_case(c, lg, o1, consts), H.coq_case(c2, lg, o2, consts)))
+            meta.append((kind, spec, c, c2, lg, o1, o2))
+            # search stage: the differential comparison itself, in Python
+            for part in ("zp", "th", "iso", "gap", "adi"):
+                a, b = numpy.asarray(o1[part], float), numpy.asarray(o2[part], float)
+                scale = float(numpy.nanmax(numpy.abs(numpy.asarray(o1["iso" if part in ("zp", "th", "iso") else part], float))))
+                bad = (numpy.isnan(a) != numpy.isnan(b)).any()
+                dif = float(numpy.nanmax(numpy.abs(a - b))) if a.size else 0.0
+                rel = dif / scale if scale > 0 else (0.0 if dif == 0 else float("inf"))
+                worst[kind] = max(worst.get(kind, 0.0), rel)
+                if bad or not rel <= RTOL_DUCK:
+                    ctx.failure(kind if kind != "combined" else "duck-combined",
+                                "%s contribution object: %s changes under re-presentation (%s) by %.3g relative"
+                                % ("longitudinal" if lg else "off-diagonal", part, kind, rel),
+                                input=dict(kind=kind, presentation=spec, longitudinal=lg, temps=c["temps"], vols=c["vols"],
+                                           weights=c["weights"], freq=c["freq"], gam=c["gam"], vdr=c["vdr"],
+                                           ei=c["ei"], ej=c["ej"], P=c["P"], Pst=c["Pst"], cv=c["cv"], na=c["na"],
+                                           note="re-presented arrays = arr[:, qperm][..., mperm[q]], weights[qperm]*wscale"),
+                                expected=a.tolist(), observed=b.tolist())
+                    break
+    files = []
+    per = 12
+    for si in range(0, len(pairs), per):
+        txt = H.HEADER + DUCK_EXTRA + "\nDefinition pairs : list (case * case) := [\n" + ";\n".join(pairs[si:si + per]) + \
+            "].\nLocal Close Scope float_scope.\n" \
+            "Eval vm_compute in (failing (fun p => chk Q1_neg Q2_neg (fst p)) pairs).\n" \
+            "Eval vm_compute in (failing (fun p => chk Q1_neg Q2_neg (snd p)) pairs).\n" \
+            "Eval vm_compute in (failing (fun p => obs_same (fst p) (snd p)) pairs).\n" \
+            "Eval vm_compute in (failing (fun p => model_same Q1_neg Q2_neg (fst p) (snd p)) pairs).\n"
+        files.append(write(rd / ("cases_duck_%02d.v" % (si // per)), txt))
+    res = ctx.run_shards(files, label="duck tie (model = impl on both presentations; impl and model invariant)")
+    names = ["model<>impl on baseline", "model<>impl on re-presentation", "impl differs between presentations",
+             "float model differs between presentations"]
+    for fi, f in enumerate(files):
+        ok, fl, out = res[f]
+        for li, lst in enumerate(fl):
+            for i in lst:
+                gi = fi * per + i
+                if 0 <= gi < len(meta):
+                    ctx.extra.setdefault("duck_shard_failures", []).append(
+                        dict(pair=gi, kind=meta[gi][0], what=names[li] if li < 4 else "?"))
+    failing_pairs = [d["pair"] for d in ctx.extra.get("duck_shard_failures", [])]
+    avg_oracle(ctx, meta, failing_pairs + list(range(0, len(meta), max(1, len(meta) // 4))))
+    for kind, spec, c, c2, lg, o1, o2 in meta[:2]:
+        ctx.sample(dict(stage="duck", kind=kind, presentation=spec, longitudinal=lg, weights=c["weights"],
+                        zero_point=numpy.asarray(o1["zp"]).tolist(), zero_point_represented=numpy.asarray(o2["zp"]).tolist()))
+
+
+def avg_oracle(ctx, meta, idxs):
+    """independent oracle for the mechanism named by the property ("weights normalised inside the weighted
+    average", Gamma-acoustic mask): exact rational arithmetic against nonshear.average_over_modes"""
+    from fractions import Fraction
+    import cij.core.phonon_contribution.nonshear as NS
+    seen = 0
+    for gi in idxs:
+        if not 0 <= gi < len(meta) or seen >= 6:
+            continue
+        seen += 1
+        kind, spec, c, c2, lg, o1, o2 = meta[gi]
+        for cc in (c, c2):
+            x = numpy.array(cc["gam"])[0]                     # [nq][np] at the first volume
+            w = list(cc["weights"])
+            got = float(NS.average_over_modes(x.copy(), numpy.array(w)))
+            tot = sum(Fraction(wq) for wq in w)
+            want = sum(Fraction(wq) * sum(Fraction(float(x[q][m])) for m in range(x.shape[1]) if not (q == 0 and m < 3))
+                       / x.shape[1] for q, wq in enumerate(w)) / tot
+            scale = max(abs(float(want)), float(numpy.max(numpy.abs(x))) * 1e-3)
+            if not abs(got - float(want)) <= 1e-12 * scale:
+                ctx.failure("average-over-modes",
+                            "average_over_modes(X, w) is %.15g; the weight-normalised mean over q of the mode means "
+                            "(Gamma-acoustic entries excluded) is %.15g" % (got, float(want)),
+                            input=dict(X=x.tolist(), weights=w), expected=float(want), observed=got)
+                return
+
+
+def guard_shard(ctx, rd, guard_cases):
+    """accepted volume lists satisfy the modelled guard (or, on an unguarded tree, gave the same numbers)"""
+    if not guard_cases:
+        return
+    body = ";\n".join("(%s, %s, %s)" % (flist(v), vlib.blit(acc), vlib.blit(same)) for v, acc, same in guard_cases)
+    txt = ("From Coq Require Import List Bool PrimFloat.\nFrom Cij Require Import Ops FOps PermModel.\nImport ListNotations.\n"
+           "Local Open Scope float_scope.\nDefinition cases : list (list float * bool * bool) := [\n%s].\n"
+           "Local Close Scope float_scope.\n"
+           "Definition chk (c : list float * bool * bool) : bool :=\n"
+           "  let '(v, acc, same) := c in if acc then mono_dec v || same else true.\n"
+           "Eval vm_compute in (failing chk cases).\n" % body)
+    f = write(rd / "cases_guard.v", txt)
+    ctx.run_shards([f], label="volume-order guard (accepted => volumes weakly decreasing, or same numbers)")
+
+
+
+def replay_stage(ctx, rd, fi):
+    """./check C13 --replay file: re-run one recorded Calculator comparison from its inlined directory contents"""
+    inp = fi.get("input") or {}
+    if "files" not in inp or "baseline_files" not in inp:
+        return False
+    paths = {}
+    for tag, files in (("base", inp["baseline_files"]), ("presented", inp["files"])):
+        d = rd / "replay" / tag
+        d.mkdir(parents=True, exist_ok=True)
+        for name, text in files.items():
+            (d / name).write_text(text)
+        paths[tag] = d / "settings.yaml"
+    base = observe_calc(paths["base"])
+    try:
+        got, raised = observe_calc(paths["presented"]), None
+    except Exception as ex:      # noqa: BLE001
+        got, raised = None, "%s: %s" % (type(ex).__name__, str(ex)[:200])
+    ctx.case(dict(replay=fi.get("key")))
+    kind = inp.get("kind", "?")
+    if raised:
+        if kind != "volume-order":
+            ctx.failure(fi["key"], "replay: re-presentation rejected: " + raised, input=inp, observed=raised)
+        return True
+    rel, q, detail = compare(base, got)
+    if not rel <= RTOL_CALC:
+        ctx.failure(fi["key"], "replay: %s differs by %.3g relative (%s)" % (q, rel, detail), input=inp,
+                    expected="max relative difference <= 1e-8", observed=detail)
+    return True
+
 
 
 def small_settings(nt=4, ntv=12, interp="lsq_poly", order=2, system="triclinic"):
@@ -317,7 +556,26 @@ def run(ctx):
     ctx.trusted += ["re-presented files are written by cij's own write_energy and a plain-text static-table writer "
                     "(repr floats); the baseline is the identity presentation written by the same writers"]
     quick = ctx.tier == "quick"
+    ctx.rule = ("(a) duck-typed Longitudinal/OffDiagonal objects (nonshear_harness: 1-5 q-points, 3/6/9 modes, garbage in the "
+                "Gamma-acoustic slots, unequal weights) re-presented by mode permutations, q-point(+weight) permutations, "
+                "weight factors in (0.05,40) and combinations; ") + ctx.rule
+    ctx.trusted += ["IEEE rounding: 1e-12 relative between presentations of one contribution object, 8e-9 model vs "
+                    "implementation (as C01), 1e-8 between Calculator runs (measured worst values in the evidence)",
+                    "QHA (qha 1.1.3: free energy, grid refinement, v2p) and scipy/numpy fits are exercised by the "
+                    "differential Calculator runs, not modelled"]
+    ctx.partial += ["static fit / key parsing / column map / volume guard theorems are tied to the code by the "
+                    "differential Calculator runs (and the guard shard), not by a translated model",
+                    "invariance of QHA's own thermodynamics (F, P, C_V, v2p) under q-point/mode order is measured only"]
+    shutil.copy(PROPS / "Prop_C13.v", rd / "Prop_C13.v")
+    ctx.prove(rd / "Prop_C13.v", "Prop_C13.v (presentation-invariance theorems over R)", "theorem-file", timeout=1800)
 
+    fi = (getattr(ctx, "replay_in", None) or {}).get("failing_input")
+    if fi and replay_stage(ctx, rd, fi):
+        return
+
+    duck_stage(ctx, rd, 12 if quick else 80)
+
+    guard_cases = []
     nsets = 2 if quick else 5
     for si in range(nsets):
         ds = synth.make_dataset(rng, nv=rng.choice([5, 6, 7]), nq=rng.choice([3, 4]), na=2,
@@ -325,9 +583,17 @@ def run(ctx):
         interp, order = (("lsq_poly", 2) if si % 2 == 0 else ("spline", 3))
         st = small_settings(interp=interp, order=order)
         specs = make_specs(rng, ds, per_kind=1 if quick else 3, volume_orders=1 if quick else 3)
-        calc_stage(ctx, rd, "synthetic%d" % si, ds, st, specs)
+        calc_stage(ctx, rd, "synthetic%d" % si, ds, st, specs, guard_cases=guard_cases)
+    # probe: nearly (not exactly) equal axial strain fractions e2, e3
+    ds = degenerate_lattice_dataset(rng)
+    base = identity_spec(ds)
+    calc_stage(ctx, rd, "near_degenerate_lattice", ds, small_settings(),
+               [("static-column-order", dict(base, colperm=[0, 1, 2, 4, 3, 5, 6, 7, 8])),
+                ("static-column-order", dict(base, colperm=rand_perm(rng, 9))),
+                ("static-row-order", dict(base, rowperm=rand_perm(rng, 6)))], guard_cases=guard_cases)
     if not quick:
         for name in ("akimotoite", "diopside"):
             ds, st = dataset_from_example(name)
             specs = make_specs(rng, ds, per_kind=1, volume_orders=1)
-            calc_stage(ctx, rd, name, ds, st, specs, inline=False)
+            calc_stage(ctx, rd, name, ds, st, specs, inline=False, guard_cases=guard_cases)
+    guard_shard(ctx, rd, guard_cases)
